@@ -426,16 +426,20 @@ func (s *State) diffIOSACLs(al, bl []*cmd, diff []edit.Range) {
 	// Generate move command which sends add and delete command together
 	// as a single command.
 	// Ignore move if both positions belong to the same block.
-	moveACL := func(a *cmdAndPos, b *cmd, before, i int, moveOK bool) {
+	// moveUpOK: All inserted lines in front of b have same action as b,
+	// so b stays connected with block directly above insert position.
+	// moveDownOK: All inserted lines behind b have same action as b,
+	// so b stays connected with block directly below insert position.
+	moveACL := func(
+		a *cmdAndPos, b *cmd, before, i int, moveUpOK, moveDownOK bool) {
+
 		defer func() { a.cmd = nil }()
-		if moveOK {
-			oldID := idx2Block[a.pos]
-			if before > 0 && idx2Block[before-1] == oldID {
-				return
-			}
-			if before < len(idx2Block) && idx2Block[before] == oldID {
-				return
-			}
+		oldID := idx2Block[a.pos]
+		if moveUpOK && before > 0 && idx2Block[before-1] == oldID {
+			return
+		}
+		if moveDownOK && before < len(idx2Block) && idx2Block[before] == oldID {
+			return
 		}
 		delACL(a)
 		delIdx := len(s.Changes) - 1
@@ -525,7 +529,14 @@ func (s *State) diffIOSACLs(al, bl []*cmd, diff []edit.Range) {
 				p := s.printNetspocCmd(b)
 				p = stripLogRX.ReplaceAllLiteralString(p, "")
 				if cmdPos, found := delMap[p]; found {
-					moveACL(cmdPos, b, r.LowA, i, moveOK)
+					moveDownOK := true
+					for _, b2 := range bl[r.LowB+i+1 : r.HighB] {
+						if getIOSAction(b2) != getIOSAction(b) {
+							moveDownOK = false
+							break
+						}
+					}
+					moveACL(cmdPos, b, r.LowA, i, moveOK, moveDownOK)
 				} else {
 					addACL(b, r.LowA, i)
 				}
